@@ -28,7 +28,8 @@ PROFILES = {
     "truthy": st.one_of(K, TRUTHY_PRIMS),
     "num": st.one_of(NUM_PRIMS, NUM_PRIMS, NUM_PRIMS, K,
                      st.tuples(st.integers(-1, 2), st.integers(-1, 1)).map(lambda t: ["c", t[0], t[1]])),
-    "lists": st.lists(st.integers(0, 3).map(lambda n: ["i", n]), max_size=2).map(lambda xs: ["l", xs]),
+    "lists": st.tuples(st.sampled_from(["l", "l", "l", "t"]),
+                       st.lists(st.integers(0, 3).map(lambda n: ["i", n]), max_size=2)).map(list),
     "unorderable": st.one_of(K, K, K, K, _v(["s", "a"], ["c", 1, 1], ["n"], ["i", 1], ["f", 1.0])),
     "unhashable": st.one_of(K, K, NUM_PRIMS, _v(["l", []], ["i", 1], ["f", 1.0], ["b", True])),
 }
